@@ -162,6 +162,21 @@ def check(rep, F, tier, replay=None):
             if not any(x.endswith("::deduplicated_clone") for x in calls):
                 rep.violation("WS-dedup", "%s|%s" % (key, f), "%s stores %s into a witness set without de-duplicating it (deduplicated_clone): a repeated script or datum would be emitted twice" % (key, f), {"function": fid, "origins": sorted(calls)[:10]})
     rep.floor("witness-set script/datum stores", 6, nws)
+    # WS-mut: the de-duplicated fields are never mutated in place
+    rep.rule("WS-mut", "native_scripts / plutus_scripts / plutus_data of a TransactionWitnessSet are never borrowed mutably: they change only through the de-duplicating setters, so nothing can append to them around the guard")
+    nmb = 0
+    for fid, fn in F.fns.items():
+        if F.is_derived(fid) or "/tests/" in fn["file"]:
+            continue
+        ffs = ff.FnFields(F, fid)
+        nmb += len(ffs.mut_borrows)
+        for pl, bi in ffs.mut_borrows:
+            for adt, var, fld in ff.place_fields(pl):
+                if adt == WS and fld in ("native_scripts", "plutus_scripts", "plutus_data"):
+                    rep.inst("WS-mut")
+                    rep.violation("WS-mut", "%s|%s" % (F.key(fid), fld), "%s takes a mutable borrow of TransactionWitnessSet.%s and can add to it without de-duplication (a datum / script is then emitted twice while the script data hash covers the de-duplicated list)" % (F.key(fid), fld), {"function": fid})
+    rep.inst("WS-mut", 1, nontrivial=False)
+    rep.floor("mutable field borrows inspected crate-wide", 500, nmb)
     # CANON
     rep.rule("CANON", "asset / mint / input maps are sorted containers; AssetName orders by length, then bytes")
     for e in tab["canonical"]:
